@@ -7,6 +7,7 @@ import hashlib
 import json
 import multiprocessing
 import os
+import signal
 import time
 
 from .sim import HarnessError
@@ -16,6 +17,31 @@ try:
     ALL_CPUS = sorted(os.sched_getaffinity(0))
 except (AttributeError, OSError):
     ALL_CPUS = []
+
+
+class CpuHang(BaseException):
+    """raised inside library code that consumed `seconds` of CPU time within one guarded call
+    (a loop that never reaches a simulated-time call cannot be cut by the world's horizon)"""
+
+
+def _cpu_hang(sig, frm):
+    raise CpuHang()
+
+
+class cpu_guard:
+    """`with cpu_guard(20): node.update()` - main thread only.  ITIMER_VIRTUAL counts this process's
+    own user-mode CPU time, so the bound does not depend on how loaded the machine is."""
+
+    def __init__(self, seconds=20.0):
+        self.seconds = seconds
+
+    def __enter__(self):
+        signal.signal(signal.SIGVTALRM, _cpu_hang)
+        signal.setitimer(signal.ITIMER_VIRTUAL, self.seconds)
+
+    def __exit__(self, *a):
+        signal.setitimer(signal.ITIMER_VIRTUAL, 0)
+        return False
 
 
 def pin(index=None):
